@@ -146,7 +146,7 @@ func mutate(rd *core.Rand, s []byte) []byte {
 }
 
 func run(r *core.Run) {
-	r.Rule = "decoders without a Lean model (SQL parser of both dialects incl. re-serialisation and redaction, pg_query, encryptor/censor YAML, ASN.1 key-ring reader) on seeds from the repository (configs/, tests/, statement tables) × 8 mutation operators + deep nesting + garbage, each under a timeout and a heap watchdog; plus a sweep of the modelled envelope decoders on the same garbage compared with the model; non-trivial = non-empty input; distinct by input bytes. Exploration (search support), not a theorem."
+	r.Rule = "SQL tokenizer (modelled, proved): boundary table for every lexical class × dialects mysql/ansi/postgresql (± other default dialect for the nested /*! */ tokenizer, ± multi), Acra's parser test tables ± one mutation, lexeme soup and random bytes – real Scan and Lex loops (cut after |input|+2 calls ⇒ `stuck`) against the model, oracles: no panic, not stuck, ≤ |input|+1 tokens, monotone positions, payload bound; non-trivial = non-empty input, distinct by input bytes. Decoders without a Lean model (SQL parser of both dialects incl. re-serialisation and redaction, pg_query, encryptor/censor YAML, ASN.1 key-ring reader) on seeds from the repository (configs/, tests/, statement tables) × 8 mutation operators + deep nesting + garbage, each under a timeout and a heap watchdog; plus a sweep of the modelled envelope decoders on the same garbage compared with the model; non-trivial = non-empty input; distinct by input bytes. Exploration (search support), not a theorem."
 	rd := r.Rand
 	guard := func(op string, in []byte, line string, isolated bool) {
 		var out string
